@@ -19,11 +19,13 @@ LocalHosts == {"lhName", "lhUpper", "lo4", "lo4b", "lo6", "unspec4", "unspec6", 
                "lo6zone", "lhDot"}
 HostClasses == {"origin",      \* ordinary name, matches nothing
                 "denied",      \* matches a deny-domains include rule
+                "deniedUpper", \* the same domain spelt in upper case by the client: the same domain, denied as well
                 "denyExcl",    \* matches an include rule and a '-' exclude rule
                 "direct",      \* matches direct-domains
                 "directExcl"}  \* matches direct-domains include and exclude
                \cup LocalHosts
 IsLocal(h) == h \in LocalHosts
+IsDenied(h) == h \in {"denied", "deniedUpper"}
 
 (* ---------- credentials presented to this proxy ---------- *)
 CredClasses == {"none", "exact", "wrongPass", "userPrefix", "passSuffix", "passPrefix", "caseVar", "emptyPass",
@@ -92,14 +94,14 @@ DialTo(ct) ==
 \* statuses of ALL failing controls: a reordering among failing checks still satisfies the statement
 FailSet(cfg, r) == (IF cfg.tf = "out" THEN {451} ELSE {})
               \cup (IF cfg.auth /\ ~CredOK(r.cred) THEN {407} ELSE {})   \* incl. the open two-line shapes
-              \cup (IF (cfg.lh = "deny" /\ IsLocal(r.host)) \/ (cfg.deny /\ r.host = "denied") THEN {403} ELSE {})
+              \cup (IF (cfg.lh = "deny" /\ IsLocal(r.host)) \/ (cfg.deny /\ IsDenied(r.host)) THEN {403} ELSE {})
               \cup (IF ViaLoop(r.via) THEN {400} ELSE {})
 Rej(st, ch) == [o |-> "reject", status |-> st, challenge |-> ch, hop |-> Hop("none", "-"), dial |-> "none"]
 Decide(cfg, r) ==
   IF cfg.tf = "out"                          THEN Rej(451, FALSE)
   ELSE IF cfg.auth /\ ~CredOK(r.cred) /\ ~CredOpen(r.cred) THEN Rej(407, TRUE)
   ELSE IF cfg.lh = "deny" /\ IsLocal(r.host) THEN Rej(403, FALSE)
-  ELSE IF cfg.deny /\ r.host = "denied"      THEN Rej(403, FALSE)
+  ELSE IF cfg.deny /\ IsDenied(r.host)      THEN Rej(403, FALSE)
   ELSE IF ViaLoop(r.via)                     THEN Rej(400, FALSE)
   ELSE LET hop == NextHop(cfg, r.host) IN
        IF hop.k = "fail" THEN [o |-> "fail", status |-> 500, challenge |-> FALSE, hop |-> hop, dial |-> "none"]
@@ -123,7 +125,7 @@ AccessReqs == [kind : AccessKinds, host : HostClasses \ {"direct", "directExcl"}
 AccessOK(c, r) ==
   /\ (r.host \in {"lo6zone", "lhDot"} => r.kind \in {"GET", "GET10", "POST"})   \* written in a URL
   /\ (r.cred # "none" => c.auth)                 \* credentials only matter with auth on
-  /\ (r.host \in {"denied", "denyExcl"} => c.deny)
+  /\ (r.host \in {"denied", "deniedUpper", "denyExcl"} => c.deny)
   /\ (r.pos \in AfterRefused => (c.auth \/ c.deny \/ c.lh = "deny" \/ c.tf = "out"))
   /\ (r.pos = "afterOK" => c.tf # "out")
 AccessAll == {x \in AccessCfgs \X AccessReqs : AccessOK(x[1], x[2])}
@@ -172,7 +174,13 @@ CredAll == {x \in CredCfgs \X CredReqs : CredReqOK(x[2])}
 VARIABLES gen, cfg, req, out
 vars == <<gen, cfg, req, out>>
 Pick(n, S) == IF n = 0 THEN S ELSE RandomSubset(n, S)
-InitAccess == gen = "access" /\ \E x \in Pick(AccessSample, AccessAll) : cfg = x[1] /\ req = x[2] /\ out = Decide(x[1], x[2])
+\* a random subset need not meet every host spelling with a configuration in which nothing else refuses the request:
+\* every (kind, host) pair is always run alone - first on its connection, credentials absent or right, no other control failing
+AccessBase == {x \in AccessAll : /\ x[2].cred \in {"none", "exact"} /\ x[2].via = "none" /\ x[2].pos = "first"
+                                 /\ x[1].tf = "off" /\ x[1].up = NoUp
+                                 /\ x[1].deny = (x[2].host \in {"denied", "deniedUpper", "denyExcl"})}
+InitAccess == gen = "access" /\ \E x \in Pick(AccessSample, AccessAll) \cup (IF AccessSample = 0 THEN {} ELSE AccessBase) :
+                  cfg = x[1] /\ req = x[2] /\ out = Decide(x[1], x[2])
 InitRoute  == gen = "route"  /\ \E x \in Pick(RouteSample, RouteAll)   : cfg = x[1] /\ req = x[2] /\ out = Decide(x[1], x[2])
 InitVia    == gen = "via"    /\ cfg \in ViaCfgs /\ req \in ViaReqs /\ out = Decide(cfg, req)
 InitCred   == gen = "cred"   /\ \E x \in Pick(CredSample, CredAll) : cfg = x[1] /\ req = x[2] /\ out = CredExpect(x[1], x[2])
